@@ -10,6 +10,12 @@ EXTENDS Integers, Sequences, Txt
 IsoDate(y, m, d) == Padded(y, 4) \o <<Dash>> \o Padded(m, 2) \o <<Dash>> \o Padded(d, 2)
 IsoHms(s) == Padded(s \div 3600, 2) \o <<Colon>> \o Padded((s % 3600) \div 60, 2) \o <<Colon>> \o Padded(s % 60, 2)
 IsoTime(s, n) == IsoHms(s) \o (IF n = 0 THEN <<>> ELSE <<Dot>> \o Fraction9(n))
+IsoH(s) == Padded(s \div 3600, 2)
+IsoHm(s) == Padded(s \div 3600, 2) \o <<Colon>> \o Padded((s % 3600) \div 60, 2)
+\* reduced-precision and variable-precision forms: the shortest of HH, HH:mm, HH:mm:ss[.f...] that loses nothing
+IsoTimeVar(s, n) == IF n # 0 \/ s % 60 # 0 THEN IsoTime(s, n) ELSE IF s % 3600 # 0 THEN IsoHm(s) ELSE IsoH(s)
+IsoTimeForm(form, s, n) == CASE form = "general" -> IsoHms(s) [] form = "hm" -> IsoHm(s) [] form = "h" -> IsoH(s)
+                             [] form = "var" -> IsoTimeVar(s, n) [] form = "ext" -> IsoTime(s, n)
 IsoTimeLong(s, n) == IsoHms(s) \o <<Dot>> \o Padded(n, 9)
 IsoDateTime(y, m, d, s, n) == IsoDate(y, m, d) \o <<LetterT>> \o IsoTime(s, n)
 IsoInstant(y, m, d, s, n) == IsoDateTime(y, m, d, s, n) \o <<LetterZ>>
